@@ -1,12 +1,15 @@
 #!/bin/sh
-# build the extracted model + driver into /verif/.build/ocaml/model
+# build the extracted model + driver into <verif>/.build/ocaml/model
 set -e
 cd "$(dirname "$0")"
-OUT=/verif/.build/ocaml
+OUT="$(cd .. && pwd)/.build/ocaml"
 mkdir -p "$OUT"
 rm -rf "$OUT/src"; mkdir -p "$OUT/src"
-cp gen/*.ml gen/*.mli conv.ml util.ml driver.ml "$OUT/src/"
+cp gen/*.ml gen/*.mli *.ml "$OUT/src/"
 cd "$OUT/src"
-# dependency order from ocamldep
+# dependency order from ocamldep; driver.ml (the main loop) is linked last so that every
+# family has registered itself before it runs
+mv driver.ml driver.ml.last
 ORDER=$(ocamlfind ocamldep -sort *.mli *.ml)
-ocamlfind ocamlopt -O2 -w -a -o "$OUT/model" $ORDER 2>/dev/null || ocamlfind ocamlopt -w -a -o "$OUT/model" $ORDER
+mv driver.ml.last driver.ml
+ocamlfind ocamlopt -O2 -w -a -o "$OUT/model" $ORDER driver.ml 2>/dev/null || ocamlfind ocamlopt -w -a -o "$OUT/model" $ORDER driver.ml
